@@ -1,4 +1,4 @@
-/* FFI externs for the Lean driver: platform regex, time, wcwidth. */
+/* FFI externs for the Lean driver: platform regex, time, locale (setlocale, mbtowc, wcwidth). */
 #define _GNU_SOURCE
 #include <lean/lean.h>
 #include <regex.h>
@@ -97,6 +97,41 @@ LEAN_EXPORT uint64_t mdsort_timegm(uint32_t year, uint32_t mon, uint32_t mday, u
   tm.tm_year = (int)year - 1900; tm.tm_mon = (int)mon; tm.tm_mday = (int)mday;
   tm.tm_hour = (int)hour; tm.tm_min = (int)min; tm.tm_sec = (int)sec;
   return (uint64_t)((int64_t)timegm(&tm) + (1LL << 40));
+}
+
+/* The character type locale of the driver is the one of its environment (LC_ALL, LC_CTYPE, LANG), selected the way mdsort's
+ * main() does it: setlocale(LC_CTYPE, "") before anything else runs (a constructor: the externs below are pure functions for
+ * Lean, so the locale must not change while the driver runs).  regcomp/regexec, mbtowc and wcwidth below depend on it. */
+static int locale_ok;
+__attribute__((constructor)) static void mdsort_locale_init(void) {
+  locale_ok = setlocale(LC_CTYPE, "") != NULL;
+}
+
+/* (setlocale succeeded) << 8 | MB_CUR_MAX: lets a check make sure that the driver runs in the locale it asked for */
+LEAN_EXPORT uint32_t mdsort_locale_info(uint32_t unused) {
+  (void)unused;
+  return ((uint32_t)locale_ok << 8) | (uint32_t)MB_CUR_MAX;
+}
+
+/* mbtowc(&wc, s + off, MB_CUR_MAX) on the NUL-terminated copy of s: returns (n + 1) << 32 | wc, i.e. the upper half is
+ * 0 for -1 (invalid or incomplete sequence; the shift state is reset as strnwidth does), 1 for the NUL, n + 1 for n bytes. */
+LEAN_EXPORT uint64_t mdsort_mbtowc(b_lean_obj_arg str, uint64_t off) {
+  size_t sl = lean_sarray_size(str);
+  if (off > sl) off = sl;
+  size_t l = sl - off;
+  char *s = malloc(l + 1);
+  memcpy(s, lean_sarray_cptr(str) + off, l); s[l] = 0;
+  wchar_t wc = 0;
+  int n = mbtowc(&wc, s, MB_CUR_MAX);
+  if (n == -1) mbtowc(NULL, NULL, MB_CUR_MAX);
+  free(s);
+  if (n < 0) return 0;
+  return ((uint64_t)(n + 1) << 32) | (uint64_t)(uint32_t)wc;
+}
+
+/* wcwidth(wc) + 1: 0 for a non-printable character (-1), else columns + 1 */
+LEAN_EXPORT uint32_t mdsort_wcwidth(uint32_t wc) {
+  return (uint32_t)(wcwidth((wchar_t)wc) + 1);
 }
 
 /* time_format (time.c): localtime + strftime(buf, 32, fmt) in the zone `tz` ("" = TZ unset: the system zone).
